@@ -357,7 +357,7 @@ def render_bank(b):
     f = []
     if b.get("unit", 8) != 8 or b.get("show_bits"):
         f.append("#bits %d" % b["unit"])
-    f.append("#addr 0x%x" % b["addr"])
+    f.append("#addr 0x%x" % b["addr"] if b["addr"] >= 0 else "#addr -0x%x" % -b["addr"])
     if b.get("size") is not None:
         f.append("#size 0x%x" % b["size"])
     if b.get("outp") is not None:
